@@ -20,7 +20,7 @@ func init() {
 		Gen: func(r *Rng, tier string, emit func(Case)) {
 			na, nb, nc := 60, 1500, 1500
 			if tier == "thorough" {
-				na, nb, nc = 2500, 60000, 60000
+				na, nb, nc = 1500, 60000, 60000
 			}
 			for i := 0; i < na; i++ {
 				c := genGram(r, "quick")
